@@ -1,6 +1,6 @@
 SPECIFICATION Spec
 CONSTANTS MaxN = 4
-Coords <- C3
+Coords <- C2
 CtrlCoords <- C2
 Letters <- LettersZeroL
 GuardZ = TRUE
